@@ -9,6 +9,7 @@ package kex
 //@ func kex.SessionCrypter.Decrypt
 //@   props C05 C02(functional) C10(sweep)
 //@   sweep bounds,panic,make,nilmem
+//@   requires @suite s.Cipher.MacAlg == 0 || macregistered(s.Cipher.MacAlg)
 //@   callassert Decrypt#1: @framing (s.Cipher.MacAlg == 0 && tag.Num == 16) || (s.Cipher.MacAlg != 0 && tag.Num == 17)
 //@   callassert Decrypt#1: @mac ? s.Cipher.MacAlg != 0 ==> bytes(expectedDigest) == MacOf(u(s.Cipher.MacAlg), bytes(s.SVK), u(mac0.Protected), u(*mac0.Payload))
 //@   callassert Decrypt#1: @object ? s.Cipher.MacAlg != 0 ==> u(arg0) == u(mac0.Payload.Val)
@@ -17,6 +18,7 @@ package kex
 //@ func kex.SessionCrypter.Encrypt
 //@   props C05 C10(sweep)
 //@   sweep bounds,panic,make,nilmem
+//@   requires @suite s.Cipher.MacAlg == 0 || macregistered(s.Cipher.MacAlg)
 //@   callassert Encrypt#1: @keys arg1 == s.Cipher.EncryptAlg && bytes(arg2) == bytes(s.SEK) && u(arg3) == u(payload)
 //@   callassert Digest#1: @keys arg1 == s.Cipher.MacAlg && bytes(arg2) == bytes(s.SVK) && arg0.Payload != nil && u(arg0.Payload.Val) == u(enc0)
 //@   ensures @frame16 err == nil && s.Cipher.MacAlg == 0 ==> dyntype(result0, "*cose.Encrypt0Tag[any,[]byte]")
@@ -25,3 +27,43 @@ package kex
 //@ func kex.Suite.New
 //@   nopaths
 //@   pure
+
+// ---- symmetric key derivation (C14): both keys have exactly the length the
+// suite requires and come out of the KDF over the shared secret ------------------------------
+//@ registry kex.ciphers via kex.RegisterCipherSuite keys 1,2,3,-17760704,-17760703,-17760706,-17760705
+//@ spec macro suiteok(c) = encregistered(c.EncryptAlg) && (c.MacAlg == 0 || macregistered(c.MacAlg)) && (hsz(u(c.PRFHash)) == 32 || hsz(u(c.PRFHash)) == 48)
+
+//@ func kex.dhSymmetricKey
+//@   props C14 C10(sweep)
+//@   sweep bounds,panic,make,nilmem,nooverflow
+//@   requires @suite suiteok(cipher)
+//@   ensures @seklen err == nil ==> len(result0) == int(enckeysize(cipher.EncryptAlg))
+//@   ensures @svklen err == nil ==> len(result1) == ite(cipher.MacAlg != 0, int(mackeysize(cipher.MacAlg)), 0)
+//@   callassert KDF#1: @inputs arg0 == cipher.PRFHash && u(arg1) == u(shSe) && len(arg2) == 0
+
+//@ func kex.ecdhSymmetricKey
+//@   props C14 C10(sweep)
+//@   sweep bounds,panic,make,nilmem,nooverflow
+//@   requires @suite suiteok(cipher)
+//@   ensures @seklen err == nil ==> len(sek) == int(enckeysize(cipher.EncryptAlg))
+//@   ensures @svklen err == nil ==> len(svk) == ite(cipher.MacAlg != 0, int(mackeysize(cipher.MacAlg)), 0)
+//@   callassert KDF#1: @inputs arg0 == cipher.PRFHash && u(arg1) == u(shSe) && len(arg2) == 0
+
+//@ func kex.oaepSymmetricKey
+//@   props C14 C10(sweep)
+//@   sweep bounds,panic,make,nilmem,nooverflow
+//@   requires @suite suiteok(cipher)
+//@   requires @randlen len(ownerRandom) <= 65535
+//@   ensures @seklen err == nil ==> len(result0) == int(enckeysize(cipher.EncryptAlg))
+//@   ensures @svklen err == nil ==> len(result1) == ite(cipher.MacAlg != 0, int(mackeysize(cipher.MacAlg)), 0)
+
+//@ func kex.ecdhParam.UnmarshalBinary
+//@   props C14 C10(sweep)
+//@   sweep bounds,panic,make,nilmem
+//@   invariant loop#1: len(xb) <= 65535 && len(yb) <= 65535 && len(rb) <= 65535
+//@   ensures @lens err == nil ==> len(p.Pub) >= 1 && len(p.Pub) <= 131071 && len(p.Rand) <= 65535
+
+//@ func kex.ecdhParam.MarshalBinary
+//@   props C14
+//@   sweep bounds,make
+//@   requires @sec1 len(p.Pub) >= 1 && len(p.Pub) <= 131071 && len(p.Pub) % 2 == 1
